@@ -328,25 +328,48 @@ def intblast_run(d, gb_nc, ob, timeout, cancel=None):
         if sym in head: gv.append(sym)
     q = head + '(check-sat)\n' + ''.join('(get-value (%s))\n' % s for s in gv) + '(exit)\n'
     open(smt, 'w').write(q)
-    rc, out, err, dt2 = run(['cvc5', '--solve-bv-as-int=sum', '--produce-models', smt], timeout=max(5, timeout - dt), cwd=d,
-                            cancel=cancel)
-    os.remove(smt)
-    if rc is None:
+    # two independent deciders on the same exported formula: cvc5 with bit-vector -> integer translation, and z3's
+    # bit-vector engine (whose arithmetic normalisation settles linear identities the SAT back ends cannot)
+    import threading
+    local_cancel = threading.Event()
+    results = {}
+
+    def one(name, cmd):
+        class Either:
+            def is_set(self_inner): return local_cancel.is_set() or (cancel is not None and cancel.is_set())
+        rc, out, err, dt2 = run(cmd, timeout=max(5, timeout - dt), cwd=d, cancel=Either())
+        first = out.strip().split('\n')[0] if (rc is not None and out.strip()) else ''
+        if first in ('unsat', 'sat'):
+            results.setdefault('answer', (name, first, out))
+            local_cancel.set()
+        elif rc is not None:
+            results.setdefault('errors', []).append('%s: %s' % (name, (out[-200:] + err[-200:]).strip()))
+    ths = [threading.Thread(target=one, args=('cvc5-intblast', ['cvc5', '--solve-bv-as-int=sum', '--produce-models', smt])),
+           threading.Thread(target=one, args=('z3-bv', ['z3', smt]))]
+    t1 = time.time()
+    for t in ths: t.start()
+    for t in ths: t.join()
+    dt2 = time.time() - t1
+    try:
+        os.remove(smt)
+    except OSError:
+        pass
+    if 'answer' not in results:
+        if results.get('errors') and len(results['errors']) == 2:
+            return 'error', '; '.join(results['errors']), dt + dt2
         return 'timeout', None, dt + dt2
-    first = out.strip().split('\n')[0] if out.strip() else ''
+    name, first, out = results['answer']
     if first == 'unsat':
-        return 'unsat', None, dt + dt2
-    if first == 'sat':
-        vals = {}
-        for t, n in ob.inputs:
-            m = re.search(r'\(\(\|harness::1::%s!0@1#1\| (#x[0-9a-fA-F]+|#b[01]+|\(_ bv(\d+) \d+\))\)\)' % re.escape(n), out)
-            if m:
-                g = m.group(1)
-                if g.startswith('#x'): vals[n] = int(g[2:], 16)
-                elif g.startswith('#b'): vals[n] = int(g[2:], 2)
-                else: vals[n] = int(m.group(2))
-        return 'sat', vals, dt + dt2
-    return 'error', (out[-500:] + err[-500:]), dt + dt2
+        return 'unsat:' + name, None, dt + dt2
+    vals = {}
+    for t, n in ob.inputs:
+        m = re.search(r'\(\(\|harness::1::%s!0@1#1\| (#x[0-9a-fA-F]+|#b[01]+|\(_ bv(\d+) \d+\))\)\)' % re.escape(n), out)
+        if m:
+            g = m.group(1)
+            if g.startswith('#x'): vals[n] = int(g[2:], 16)
+            elif g.startswith('#b'): vals[n] = int(g[2:], 2)
+            else: vals[n] = int(m.group(2))
+    return 'sat:' + name, vals, dt + dt2
 
 
 def canary_prop(d, gb, ob):
@@ -410,15 +433,17 @@ def decide(d, ob, src='h.c', budget=None, log=None):
 
     def strat_ib():
         st, vals, dt = intblast_run(d, gbn, ob, budget, cancel=cancel)
-        if st == 'unsat':
+        if st.startswith('unsat'):
+            ibname = st.split(':')[1]
             can, n = canary_prop(d, gb, ob)
             canary = None
             if can:
                 st2, res2, dt2 = sat_run(d, gb, ob, 'cadical', budget, prop=can)
                 if st2 == 'done':
                     canary = any(r['status'] != 'SUCCESS' for r in res2)
-            return dict(status='proved', backend='cbmc-smt2+cvc5-intblast', failed=[], inputs=None, canary=canary, n=max(n - 1, 1))
-        if st == 'sat':
+            return dict(status='proved', backend='cbmc-smt2+' + ibname, failed=[], inputs=None, canary=canary, n=max(n - 1, 1))
+        if st.startswith('sat'):
+            ibname = st.split(':')[1]
             # localise the failing assertion: pin the inputs to the model, rerun on SAT (constant propagation)
             body = open(os.path.join(d, src)).read()
             pins = []
@@ -434,7 +459,7 @@ def decide(d, ob, src='h.c', budget=None, log=None):
                 if st3 == 'done':
                     failed, canary, inputs, n = classify(res3, names)
                     if failed:
-                        return dict(status='failed', backend='cbmc-smt2+cvc5-intblast(model)+cbmc-sat(localised)', failed=failed,
+                        return dict(status='failed', backend='cbmc-smt2+' + ibname + '(model)+cbmc-sat(localised)', failed=failed,
                                     inputs=vals, canary=None, n=n)
                     notes.append('int-blast model %r did not reproduce on the SAT back end' % vals)
             else:
